@@ -15,24 +15,22 @@ def runs(files, options, seeds):
     return R.subprocess_runs(files, [(options, s, None) for s in seeds])
 
 
-def explain(trees, kinds, verbose=True):
-    """-> (set of findings needed to explain the differences, all explained?)"""
+def explain(trees, kinds=(), verbose=True):
+    """-> (set(), all runs byte-identical?)   (no open finding allows two runs to differ any more; [kinds] is
+    ignored and kept for the older demonstrations)"""
     from harness.impl import c12run as R
     ok = [t[2] for t in trees if t[0] == 0]
-    needed, clean = set(), True
+    clean = len(ok) == len(trees)
     for i, t in enumerate(ok[1:], 1):
-        cl = R.classify(ok[0], t, set(kinds))
+        cl = R.classify(ok[0], t)
         if cl is None:
             if verbose:
                 print(f"run {i}: byte-identical to run 0")
             continue
-        why, detail = cl
+        clean = False
+        detail = cl[1]
         if verbose:
-            print(f"run {i}: differs; explained by {why}; first difference: {detail[0]} ({detail[1]})")
+            print(f"run {i}: differs; first difference: {detail[0]} ({detail[1]})")
             for l in detail[2][:6]:
                 print("      ", l)
-        if why is None:
-            clean = False
-        else:
-            needed.update(why)
-    return needed, clean
+    return set(), clean
